@@ -1009,22 +1009,35 @@ def judge_c13(ops, impl):
         names = [w.routers[rid].name for rid in g['routers'] if rid in w.routers]
         # the first router, in the order added, whose matcher accepts (decidable here for hosts-free matchers)
         hdrs = dict(decM(toks[5])); mp = None if toks[6] == '%!' else dict(decM(toks[6]))
-        first = 'unknown'
+        first = 'unknown'; mparams = None
         for rid in g['routers']:
             expr = g.get('matchers', {}).get(rid)
             if expr is None or 'hosts:' in expr or rid not in w.routers:
                 break
             try:
-                ok, _, _ = eval_matcher(expr, path, hdrs.get(b'Accept', b''), mp, {})
+                ok, _, mq = eval_matcher(expr, path, hdrs.get(b'Accept', b''), mp, {})
             except Exception:
                 break
             if ok:
-                first = w.routers[rid].name; break
+                first = w.routers[rid].name; mparams = mq; break
         else:
             first = None
         served = None if (f['base'] == 'groupNotFound' and f['router'] == '%_') else decB(f['router'])
         if first != 'unknown' and served != first:
             bad.append((i, 'served by %r, but the first router in the order added whose matcher accepts is %r (routers %r)' % (served, first, names)))
+        elif mparams is not None and served == first and first is not None:
+            # "... plus the parameters the matcher captured": every matcher parameter reaches the handler, unless the served
+            # route has a capturing parameter of the same name (then the route's value wins)
+            got = dict(decM(f['params']))
+            own = set()
+            if f['node'] != '-':
+                segs = split_pattern(decB(f['node']), {})
+                own = None if isinstance(segs, str) else {sg.name for sg in segs if sg.kind != 'str' and not sg.ignore}
+            if own is not None:
+                for k, v in mparams.items():
+                    if k not in own and got.get(k) != v:
+                        bad.append((i, 'matcher parameter %r=%r did not reach the handler (it got %r; served route %s)' % (k, v, got, f['node'])))
+                        break
         if f['base'] == 'groupNotFound' and f['router'] == '%_':
             if decB(f['path']) != path or f['params'] != '%-':
                 bad.append((i, 'no router accepted, but the request reached the not-found handler as path=%s params=%s' % (f['path'], f['params'])))
